@@ -26,6 +26,11 @@ LIST_MUTATORS = frozenset("insert append extend pop remove clear sort reverse __
 
 def run(ctx):
     """entry"""
+    f = None
+    n = None
+    ok = None
+    q = None
+    t = None
     index = ctx.index
     graph = RefGraph(index)
     eff = Effects(index)
@@ -42,193 +47,213 @@ def run(ctx):
         "with C09 (concatenation is the identity on untouched nodes) the frame rule gives: every line that is "
         "not a definition header or a docstring is byte-identical",
     ]
-    # --------------------------------------------------------------- write
-    dt = index.func("cdd.compound.doctrans.doctrans")
-    writes = wm.direct.get(dt.qual, [])
-    ok = len(writes) == 1
-    ctx.ob("C07.write", dt, "exactly one write sink in doctrans()", ok, "" if ok else "{} write sinks".format(len(writes)), line=dt.node.lineno)
-    for e in writes:
-        w = None
-        p = dt.mod.parents.get(e.call)
-        while p is not None and p is not dt.node:
-            if isinstance(p, ast.With):
-                w = p
-            p = dt.mod.parents.get(p)
-        ctx.need(w is not None, "the write in doctrans() is no longer a `with open(...)`")
-        # nothing after the with-statement, on any path
-        tail_ok = True
-        child, p = w, dt.mod.parents.get(w)
-        while p is not None:
-            for fld in ("body", "orelse", "finalbody"):
-                blk = getattr(p, fld, None)
-                if isinstance(blk, list) and child in blk and blk.index(child) != len(blk) - 1:
-                    tail_ok = False
-            if p is dt.node:
-                break
-            child, p = p, dt.mod.parents.get(p)
-        ctx.ob("C07.write", dt, "the write is the last statement on its path", tail_ok, "" if tail_ok else "statements follow the truncating write: a failure there leaves a half-converted file", line=w.lineno)
-        inner = [
-            c
-            for b in w.body
-            for c in ast.walk(b)
-            if isinstance(c, ast.Call) and (index.callee(dt.mod, c, dt) or "").startswith("cdd.")
-        ]
-        ctx.ob(
-            "C07.write",
-            dt,
-            "no call into the package once the file is truncated",
-            not inner,
-            "" if not inner else "`{}` runs after open(filename, 'wt') truncated the file: if it raises, the file is lost".format(short(inner[0], 50)),
-            line=w.lineno,
-        )
-        ex = e.call.args[0] if e.call.args else None
-        ok = isinstance(ex, ast.Name) and ex.id == "filename"
-        ctx.ob("C07.write", dt, e.call, ok, "" if ok else "the file written is not exactly `filename`")
-    # --------------------------------------------------------------- frame
-    n_mut = 0
-    for q in (
-        "cdd.compound.doctrans_utils.doctransify_cst",
-        "cdd.shared.ast_cst_utils.maybe_replace_doc_str_in_function_or_class",
-        "cdd.shared.ast_cst_utils.maybe_replace_function_return_type",
-        "cdd.shared.ast_cst_utils.maybe_replace_function_args",
-    ):
-        f = index.func(q)
-        sa = {}
+    def _sec_write():
+        nonlocal ok
+        # --------------------------------------------------------------- write
+        dt = index.func("cdd.compound.doctrans.doctrans")
+        writes = wm.direct.get(dt.qual, [])
+        ok = len(writes) == 1
+        ctx.ob("C07.write", dt, "exactly one write sink in doctrans()", ok, "" if ok else "{} write sinks".format(len(writes)), line=dt.node.lineno)
+        for e in writes:
+            w = None
+            p = dt.mod.parents.get(e.call)
+            while p is not None and p is not dt.node:
+                if isinstance(p, ast.With):
+                    w = p
+                p = dt.mod.parents.get(p)
+            ctx.need(w is not None, "the write in doctrans() is no longer a `with open(...)`")
+            # nothing after the with-statement, on any path
+            tail_ok = True
+            child, p = w, dt.mod.parents.get(w)
+            while p is not None:
+                for fld in ("body", "orelse", "finalbody"):
+                    blk = getattr(p, fld, None)
+                    if isinstance(blk, list) and child in blk and blk.index(child) != len(blk) - 1:
+                        tail_ok = False
+                if p is dt.node:
+                    break
+                child, p = p, dt.mod.parents.get(p)
+            ctx.ob("C07.write", dt, "the write is the last statement on its path", tail_ok, "" if tail_ok else "statements follow the truncating write: a failure there leaves a half-converted file", line=w.lineno)
+            inner = [
+                c
+                for b in w.body
+                for c in ast.walk(b)
+                if isinstance(c, ast.Call) and (index.callee(dt.mod, c, dt) or "").startswith("cdd.")
+            ]
+            ctx.ob(
+                "C07.write",
+                dt,
+                "no call into the package once the file is truncated",
+                not inner,
+                "" if not inner else "`{}` runs after open(filename, 'wt') truncated the file: if it raises, the file is lost".format(short(inner[0], 50)),
+                line=w.lineno,
+            )
+            ex = e.call.args[0] if e.call.args else None
+            ok = isinstance(ex, ast.Name) and ex.id == "filename"
+            ctx.ob("C07.write", dt, e.call, ok, "" if ok else "the file written is not exactly `filename`")
 
-        def on_stmt(s, facts, _sa=sa):
-            _sa[id(s)] = facts
+    ctx.section(_sec_write)
 
-        def on_expr(n, facts, _sa=sa):
-            _sa[id(n)] = facts
+    def _sec_frame():
+        nonlocal f, n, ok, q, t
+        # --------------------------------------------------------------- frame
+        n_mut = 0
+        for q in (
+            "cdd.compound.doctrans_utils.doctransify_cst",
+            "cdd.shared.ast_cst_utils.maybe_replace_doc_str_in_function_or_class",
+            "cdd.shared.ast_cst_utils.maybe_replace_function_return_type",
+            "cdd.shared.ast_cst_utils.maybe_replace_function_args",
+        ):
+            f = index.func(q)
+            sa = {}
 
-        GuardWalker(on_stmt=on_stmt, on_expr=on_expr).walk_function(f.node)
-        for n in iter_own(f.node):
-            idx_expr, kind, site = None, None, None
-            if isinstance(n, ast.Assign) and isinstance(n.targets[0], ast.Subscript) and norm(n.targets[0].value) == "cst_list":
-                idx_expr, kind, site = n.targets[0].slice, "overwrite", n
-            elif isinstance(n, ast.Delete) and any(isinstance(t, ast.Subscript) and norm(t.value) == "cst_list" for t in n.targets):
-                t = [t for t in n.targets if isinstance(t, ast.Subscript)][0]
-                idx_expr, kind, site = t.slice, "delete", n
-            elif isinstance(n, ast.Call) and isinstance(n.func, ast.Attribute) and norm(n.func.value) == "cst_list" and n.func.attr in LIST_MUTATORS:
-                kind, site = n.func.attr, n
-                idx_expr = n.args[0] if n.func.attr in ("insert", "pop") and n.args else None
-            if site is None:
+            def on_stmt(s, facts, _sa=sa):
+                _sa[id(s)] = facts
+
+            def on_expr(n, facts, _sa=sa):
+                _sa[id(n)] = facts
+
+            GuardWalker(on_stmt=on_stmt, on_expr=on_expr).walk_function(f.node)
+            for n in iter_own(f.node):
+                idx_expr, kind, site = None, None, None
+                if isinstance(n, ast.Assign) and isinstance(n.targets[0], ast.Subscript) and norm(n.targets[0].value) == "cst_list":
+                    idx_expr, kind, site = n.targets[0].slice, "overwrite", n
+                elif isinstance(n, ast.Delete) and any(isinstance(t, ast.Subscript) and norm(t.value) == "cst_list" for t in n.targets):
+                    t = [t for t in n.targets if isinstance(t, ast.Subscript)][0]
+                    idx_expr, kind, site = t.slice, "delete", n
+                elif isinstance(n, ast.Call) and isinstance(n.func, ast.Attribute) and norm(n.func.value) == "cst_list" and n.func.attr in LIST_MUTATORS:
+                    kind, site = n.func.attr, n
+                    idx_expr = n.args[0] if n.func.attr in ("insert", "pop") and n.args else None
+                if site is None:
+                    continue
+                n_mut += 1
+                itxt = norm(idx_expr) if idx_expr is not None else None
+                if itxt not in ("cst_idx", "cst_idx + 1"):
+                    ctx.ob("C07.frame", f, site, False, "the CST list is mutated at `{}` ({}): only the definition header (cst_idx) and the node right after it may change".format(itxt, kind))
+                    continue
+                if kind not in ("overwrite", "delete", "insert"):
+                    ctx.ob("C07.frame", f, site, False, "unexpected list mutation `{}` of the CST".format(kind))
+                    continue
+                facts = sa.get(id(site)) or {}
+                if itxt == "cst_idx + 1":
+                    doc = facts.get("existing_doc_str")
+                    ok = (doc is True) if kind in ("overwrite", "delete") else (doc is False)
+                    ctx.ob(
+                        "C07.frame",
+                        f,
+                        site,
+                        ok,
+                        ""
+                        if ok
+                        else "{} of the node after the header is not dominated by `existing_doc_str` being {}: a statement "
+                        "that is not a docstring can be {}".format(kind, kind != "insert", "destroyed" if kind != "insert" else "preceded by a second docstring"),
+                    )
+                else:
+                    ctx.ob("C07.frame", f, site, True)
+        ctx.count("cst_list_mutations", n_mut)
+        ctx.floor("mutations of the CST list", n_mut, 5)
+        mr = index.func("cdd.shared.ast_cst_utils.maybe_replace_doc_str_in_function_or_class")
+        ed = [n for n in iter_own(mr.node) if isinstance(n, (ast.Assign, ast.AnnAssign)) and norm(n.targets[0] if isinstance(n, ast.Assign) else n.target) == "existing_doc_str"]
+        ctx.need(len(ed) == 1, "existing_doc_str vanished")
+        v = norm(ed[0].value)
+        ok = "isinstance(" in v and "TripleQuoted" in v and "is_docstr" in v and " and " in v
+        ctx.ob("C07.frame", mr, ed[0], ok, "" if ok else "existing_doc_str must require a TripleQuoted node AND its is_docstr flag")
+        # cst_idx provenance in the driver
+        dcst = index.func("cdd.compound.doctrans_utils.doctransify_cst")
+        src = [n for n in iter_own(dcst.node) if isinstance(n, ast.Assign) and "cst_idx" in norm(n.targets[0])]
+        ok = bool(src) and all(isinstance(n.value, ast.Call) and (index.callee(dcst.mod, n.value, dcst) or "").endswith("find_cst_at_ast") for n in src)
+        ctx.ob("C07.frame", dcst, "cst_idx comes from find_cst_at_ast", ok, "" if ok else "cst_idx is computed some other way", line=dcst.node.lineno)
+        for n in iter_own(dcst.node):
+            if isinstance(n, ast.Call) and (index.callee(dcst.mod, n, dcst) or "").startswith("cdd.shared.ast_cst_utils.maybe_"):
+                passed = [norm(a) for a in n.args]
+                ok = "cst_idx" in passed and "cst_list" in passed
+                ctx.ob("C07.frame", dcst, short(n, 80), ok, "" if ok else "a maybe_* helper is not handed cst_idx / cst_list unchanged", line=n.lineno)
+
+    ctx.section(_sec_frame)
+
+    def _sec_writeset():
+        nonlocal f, n, ok, q, t
+        # ------------------------------------------------------------ writeset
+        cls = "cdd.compound.doctrans_utils.DocTrans"
+        ctx.need(cls in index.classes, "DocTrans vanished")
+        n_w = 0
+        for q, f in sorted(index.funcs.items()):
+            if not q.startswith(cls + "."):
                 continue
-            n_mut += 1
-            itxt = norm(idx_expr) if idx_expr is not None else None
-            if itxt not in ("cst_idx", "cst_idx + 1"):
-                ctx.ob("C07.frame", f, site, False, "the CST list is mutated at `{}` ({}): only the definition header (cst_idx) and the node right after it may change".format(itxt, kind))
+            for n in iter_own(f.node):
+                targets = []
+                if isinstance(n, (ast.Assign, ast.AugAssign, ast.AnnAssign)):
+                    targets = [t for t in (n.targets if isinstance(n, ast.Assign) else [n.target]) if isinstance(t, ast.Attribute)]
+                elif isinstance(n, ast.Call) and norm(n.func) == "setattr" and len(n.args) == 3 and isinstance(n.args[1], ast.Constant):
+                    targets = [ast.Attribute(value=n.args[0], attr=n.args[1].value, ctx=ast.Store())]
+                for t in targets:
+                    root = t.value
+                    while isinstance(root, ast.Attribute):
+                        root = root.value
+                    if isinstance(root, ast.Name) and root.id == "self":
+                        continue  # transformer configuration, not the program
+                    n_w += 1
+                    chain = norm(t)
+                    field = t.attr
+                    ok = field in ALLOWED_FIELDS
+                    why = ""
+                    if chain.endswith(".args.args") or field == "args":
+                        # arity-preserving map over the same list that copies the names
+                        val = n.value if isinstance(n, ast.Assign) else None
+                        vt = " ".join(norm(val).split()) if val is not None else ""
+                        ok = vt.startswith("list(map(") and "node.args.args" in vt and "filter(" not in vt
+                        why = "args.args must be rebuilt by an arity-preserving map over node.args.args"
+                    if not ok and not why:
+                        why = "DocTrans assigns `{}`: only annotations, type comments, returns and visited bodies may change".format(chain)
+                    ctx.ob("C07.writeset", f, n, ok, "" if ok else why)
+        ctx.count("doctrans_ast_field_stores", n_w)
+        ctx.floor("AST field stores in DocTrans", n_w, 6)
+        if not any(q == cls + ".visit_AsyncFunctionDef" for q in index.funcs):
+            ctx.note("DocTrans has no visit_AsyncFunctionDef: async functions are left untouched (program unchanged, docstrings not converted)")
+
+    ctx.section(_sec_writeset)
+
+    def _sec_header():
+        nonlocal f, ok
+        # -------------------------------------------------------------- header
+        n_h = 0
+        for f in index.nontest_funcs():
+            if f.mod.name != "cdd.shared.ast_cst_utils":
                 continue
-            if kind not in ("overwrite", "delete", "insert"):
-                ctx.ob("C07.frame", f, site, False, "unexpected list mutation `{}` of the CST".format(kind))
+            builds = [
+                n
+                for n in iter_own(f.node)
+                if isinstance(n, ast.Call) and norm(n.func) == "FunctionDefinitionStart"
+            ]
+            if not builds:
                 continue
-            facts = sa.get(id(site)) or {}
-            if itxt == "cst_idx + 1":
-                doc = facts.get("existing_doc_str")
-                ok = (doc is True) if kind in ("overwrite", "delete") else (doc is False)
-                ctx.ob(
-                    "C07.frame",
-                    f,
-                    site,
-                    ok,
-                    ""
-                    if ok
-                    else "{} of the node after the header is not dominated by `existing_doc_str` being {}: a statement "
-                    "that is not a docstring can be {}".format(kind, kind != "insert", "destroyed" if kind != "insert" else "preceded by a second docstring"),
-                )
-            else:
-                ctx.ob("C07.frame", f, site, True)
-    ctx.count("cst_list_mutations", n_mut)
-    ctx.floor("mutations of the CST list", n_mut, 5)
-    mr = index.func("cdd.shared.ast_cst_utils.maybe_replace_doc_str_in_function_or_class")
-    ed = [n for n in iter_own(mr.node) if isinstance(n, (ast.Assign, ast.AnnAssign)) and norm(n.targets[0] if isinstance(n, ast.Assign) else n.target) == "existing_doc_str"]
-    ctx.need(len(ed) == 1, "existing_doc_str vanished")
-    v = norm(ed[0].value)
-    ok = "isinstance(" in v and "TripleQuoted" in v and "is_docstr" in v and " and " in v
-    ctx.ob("C07.frame", mr, ed[0], ok, "" if ok else "existing_doc_str must require a TripleQuoted node AND its is_docstr flag")
-    # cst_idx provenance in the driver
-    dcst = index.func("cdd.compound.doctrans_utils.doctransify_cst")
-    src = [n for n in iter_own(dcst.node) if isinstance(n, ast.Assign) and "cst_idx" in norm(n.targets[0])]
-    ok = bool(src) and all(isinstance(n.value, ast.Call) and (index.callee(dcst.mod, n.value, dcst) or "").endswith("find_cst_at_ast") for n in src)
-    ctx.ob("C07.frame", dcst, "cst_idx comes from find_cst_at_ast", ok, "" if ok else "cst_idx is computed some other way", line=dcst.node.lineno)
-    for n in iter_own(dcst.node):
-        if isinstance(n, ast.Call) and (index.callee(dcst.mod, n, dcst) or "").startswith("cdd.shared.ast_cst_utils.maybe_"):
-            passed = [norm(a) for a in n.args]
-            ok = "cst_idx" in passed and "cst_list" in passed
-            ctx.ob("C07.frame", dcst, short(n, 80), ok, "" if ok else "a maybe_* helper is not handed cst_idx / cst_list unchanged", line=n.lineno)
-    # ------------------------------------------------------------ writeset
-    cls = "cdd.compound.doctrans_utils.DocTrans"
-    ctx.need(cls in index.classes, "DocTrans vanished")
-    n_w = 0
-    for q, f in sorted(index.funcs.items()):
-        if not q.startswith(cls + "."):
-            continue
-        for n in iter_own(f.node):
-            targets = []
-            if isinstance(n, (ast.Assign, ast.AugAssign, ast.AnnAssign)):
-                targets = [t for t in (n.targets if isinstance(n, ast.Assign) else [n.target]) if isinstance(t, ast.Attribute)]
-            elif isinstance(n, ast.Call) and norm(n.func) == "setattr" and len(n.args) == 3 and isinstance(n.args[1], ast.Constant):
-                targets = [ast.Attribute(value=n.args[0], attr=n.args[1].value, ctx=ast.Store())]
-            for t in targets:
-                root = t.value
-                while isinstance(root, ast.Attribute):
-                    root = root.value
-                if isinstance(root, ast.Name) and root.id == "self":
-                    continue  # transformer configuration, not the program
-                n_w += 1
-                chain = norm(t)
-                field = t.attr
-                ok = field in ALLOWED_FIELDS
-                why = ""
-                if chain.endswith(".args.args") or field == "args":
-                    # arity-preserving map over the same list that copies the names
-                    val = n.value if isinstance(n, ast.Assign) else None
-                    vt = " ".join(norm(val).split()) if val is not None else ""
-                    ok = vt.startswith("list(map(") and "node.args.args" in vt and "filter(" not in vt
-                    why = "args.args must be rebuilt by an arity-preserving map over node.args.args"
-                if not ok and not why:
-                    why = "DocTrans assigns `{}`: only annotations, type comments, returns and visited bodies may change".format(chain)
-                ctx.ob("C07.writeset", f, n, ok, "" if ok else why)
-    ctx.count("doctrans_ast_field_stores", n_w)
-    ctx.floor("AST field stores in DocTrans", n_w, 6)
-    if not any(q == cls + ".visit_AsyncFunctionDef" for q in index.funcs):
-        ctx.note("DocTrans has no visit_AsyncFunctionDef: async functions are left untouched (program unchanged, docstrings not converted)")
-    # -------------------------------------------------------------- header
-    n_h = 0
-    for f in index.nontest_funcs():
-        if f.mod.name != "cdd.shared.ast_cst_utils":
-            continue
-        builds = [
-            n
-            for n in iter_own(f.node)
-            if isinstance(n, ast.Call) and norm(n.func) == "FunctionDefinitionStart"
-        ]
-        if not builds:
-            continue
-        # does it render parameters from an arguments object itself? (reads `.arg` of elements)
-        renders = any(isinstance(n, ast.Attribute) and n.attr == "arg" for n in iter_own(f.node))
-        if not renders:
-            continue
-        n_h += 1
-        read = {n.attr for n in iter_own(f.node) if isinstance(n, ast.Attribute) and n.attr in ARGUMENTS_FIELDS}
-        read |= {c for n in iter_own(f.node) if isinstance(n, ast.Constant) and isinstance(n.value, str) for c in ARGUMENTS_FIELDS if c in n.value.split(".")}
-        delegates = any(
-            isinstance(n, ast.Call) and norm(n.func) in ("to_code", "ast.unparse", "unparse") and n.args and norm(n.args[0]).endswith(".args")
-            for n in iter_own(f.node)
-        )
-        missing = [x for x in ARGUMENTS_FIELDS if x not in read]
-        ok = delegates or not missing
-        ctx.ob(
-            "C07.header",
-            f,
-            "{} re-renders the parameter list".format(f.short),
-            ok,
-            ""
-            if ok
-            else "the header is rebuilt from args.args names and annotations only; {} are never read: `def f(a=1, *r, "
-            "k=2, **kw)` loses its defaults, *r, the keyword-only marker and **kw whenever an annotation "
-            "changes".format(missing),
-            line=f.node.lineno,
-        )
-    ctx.count("header_rendering_functions", n_h)
-    ctx.floor("functions re-rendering a def header", n_h, 1)
+            # does it render parameters from an arguments object itself? (reads `.arg` of elements)
+            renders = any(isinstance(n, ast.Attribute) and n.attr == "arg" for n in iter_own(f.node))
+            if not renders:
+                continue
+            n_h += 1
+            read = {n.attr for n in iter_own(f.node) if isinstance(n, ast.Attribute) and n.attr in ARGUMENTS_FIELDS}
+            read |= {c for n in iter_own(f.node) if isinstance(n, ast.Constant) and isinstance(n.value, str) for c in ARGUMENTS_FIELDS if c in n.value.split(".")}
+            delegates = any(
+                isinstance(n, ast.Call) and norm(n.func) in ("to_code", "ast.unparse", "unparse") and n.args and norm(n.args[0]).endswith(".args")
+                for n in iter_own(f.node)
+            )
+            missing = [x for x in ARGUMENTS_FIELDS if x not in read]
+            ok = delegates or not missing
+            ctx.ob(
+                "C07.header",
+                f,
+                "{} re-renders the parameter list".format(f.short),
+                ok,
+                ""
+                if ok
+                else "the header is rebuilt from args.args names and annotations only; {} are never read: `def f(a=1, *r, "
+                "k=2, **kw)` loses its defaults, *r, the keyword-only marker and **kw whenever an annotation "
+                "changes".format(missing),
+                line=f.node.lineno,
+            )
+        ctx.count("header_rendering_functions", n_h)
+        ctx.floor("functions re-rendering a def header", n_h, 1)
+
+    ctx.section(_sec_header)
+
